@@ -153,7 +153,7 @@ def translate(repo=None):
     if inits != {n: 1 for n in LISTS}:
         raise Unsupported("the four parallel lists are not each initialised exactly once with [] before the loop: %r" % inits)
     want_after = {
-        "normalized_objs = np.clip((np.asarray(facecolor_objs) - min_obj) / (max_obj - min_obj), 0.0, 1.0)": 0,
+        "normalized_objs = np.clip((np.asarray(facecolor_objs, dtype=np.float64) - min_obj) / (max_obj - min_obj), 0.0, 1.0)": 0,
         "facecolors = np.asarray(facecolors)": 0,
         "facecolors[facecolor_cmap_mask] = cmap(normalized_objs)": 0,
     }
